@@ -287,7 +287,8 @@ def run(ctx):
                              {"message": repr(m), "bytes": list(b), "decoded": repr(dec)})
     # ---- malformed datagrams
     verbs = [b"APING", b"AVERS", b"SVERS", b"CURCH", b"CHCUR", b"SFILE", b"STATU", b"STATV", b"STATQ", b"STATP", b"SPACK", b"PACKS", b"GETWC",
-             b"WCGET", b"SETWC", b"WCREQ", b"REQRM", b"RMREQ", b"UPDTS", b"SUPDT", b"RFERR", b"XXXXX", b"STAT", b""]
+             b"WCGET", b"SETWC", b"WCREQ", b"REQRM", b"RMREQ", b"UPDTS", b"SUPDT", b"RFERR", b"XXXXX", b"STAT", b"",
+             b"WCERR", b"WCSET", b"REQWC", b"RMGET", b"PACKT", b"HELLO", b"STATW", b"WCGE", b"SPAC"]
     for _ in range(600 if ctx.thorough else 150):
         v = rng.choice(verbs)
         b = v + rnd_bytes(rng, rng.choice([0, 0, 1, 2, 3, 4, 5, 7, 8, 9, 12, 40]))
@@ -295,6 +296,13 @@ def run(ctx):
             b = v + bytes([rng.randrange(256), rng.randrange(256), rng.choice([2, 2, 6, 7, 1]), rng.choice([57, 70, 70, 3])]) + rnd_bytes(rng, rng.randrange(0, 8))
         dec, acc = decode_impl(b)
         if dec == "unmodelled":
+            # accepted but never built by the library (REQWC / WCSET / WCERR ...): which classes claim it is still compared
+            exprs.append("chk_acc %s [%s]" % (vf.zb(b), "; ".join(vf.cbool(x) for x in acc)))
+            meta.append({"raw": list(b)[:40], "accepted_by": [n for n, x in zip(hnames, acc) if x]})
+            ctx.count("raw_acceptance_only")
+            if sum(1 for n, x in zip(hnames, acc) if x and n not in ("HHello", "HPacket")) > 1:
+                ctx.fail("accept:raw:%s" % v.decode(), "a %s datagram is claimed by more than one verb handler: %s" % (v.decode(), [n for n, x in zip(hnames, acc) if x]),
+                         {"bytes": list(b), "accepted_by": [n for n, x in zip(hnames, acc) if x]})
             continue
         exprs.append("chk_raw %s %s [%s]" % (vf.zb(b), ocmsg(dec), "; ".join(vf.cbool(x) for x in acc)))
         meta.append({"raw": list(b)[:40], "decoded": repr(dec)[:200]})
